@@ -378,6 +378,7 @@ func (e *authEnv) modBalances(denom string) string {
 type tfWorld struct {
 	denoms []*tfDenom
 	ref    map[string]string // canonical denom -> current admin (engine's own bookkeeping)
+	hook   map[string]string // canonical denom -> before-send hook set by the last accepted MsgSetBeforeSendHook ("-" = none)
 }
 
 // tfSend sends one tokenfactory message and records observation + oracle.
@@ -490,6 +491,12 @@ func (e *authEnv) tfSend(w *tfWorld, kind string, sender string, canon string, c
 				d.hist = append(d.hist, args[0])
 			}
 		}
+	}
+	if ok && kind == "hook" {
+		if w.hook == nil {
+			w.hook = map[string]string{}
+		}
+		w.hook[canon] = args[0]
 	}
 	if ok && (kind == "burn" || kind == "force") && args[1] == e.pool {
 		e.o.Count("tokenfactory." + msgName + ":out-of-pool-address:ok") // pool accounts are not maccPerms accounts
@@ -707,7 +714,7 @@ func (e *authEnv) tfArgs(kind, sender, canon string, plausible bool) []string {
 var tfKinds = []string{"mint", "burn", "force", "admin", "meta", "hook"}
 
 func (e *authEnv) tfPhase() {
-	w := &tfWorld{ref: map[string]string{}}
+	w := &tfWorld{ref: map[string]string{}, hook: map[string]string{}}
 	longSub := strings.Repeat("x", 45)
 	subs := []string{"a", "b", "c", "a", "b", "uosmo", longSub, "bad!", "-", "x/y"}
 	// --- creation, by users (and occasionally a module account / the pool)
@@ -728,8 +735,171 @@ func (e *authEnv) tfPhase() {
 	}
 	for round := 0; round < 3; round++ {
 		e.tfLife(w)
+		if round == 0 && e.cw != "" {
+			e.tfHookThenExportImport(w)
+		} else if e.r.Intn(3) == 0 {
+			e.tfExportImport(w)
+		}
 		e.tfRecreate(w)
-		e.tfSweep(w, round == 0)
+		if e.r.Intn(4) == 0 {
+			e.tfExportImport(w)
+		}
+		// the never-created targets (factory/u0/ghost, uosmo) are swept in the LAST round, after the last export: the raw-handler
+		// probes with the empty sender (no transaction can have it) can write an authority record for a denom that has no entry in
+		// the creators store, a state outside the reachable set the export/import statements (Props/C19TokenFactory) quantify over
+		e.tfSweep(w, round == 2)
+		if round < 2 && e.r.Intn(3) == 0 {
+			e.tfExportImport(w)
+		}
+	}
+}
+
+// tfHookThenExportImport: the directed sequence for the one thing the tokenfactory genesis does not carry — a live admin points its
+// denom's before-send hook at the history's contract, then the module is exported and imported.
+func (e *authEnv) tfHookThenExportImport(w *tfWorld) {
+	st := 0
+	if len(w.denoms) > 0 {
+		st = e.r.Intn(len(w.denoms))
+	}
+	for i := range w.denoms {
+		d := w.denoms[(st+i)%len(w.denoms)]
+		cur := w.ref[d.canon()]
+		if cur == "-" || !e.isValid(cur) || cur == "bad" {
+			continue
+		}
+		if e.tfSend(w, "hook", cur, d.canon(), "admin", []string{e.cw}) {
+			e.o.Count("exportimport.directed.hook-set")
+			break
+		}
+	}
+	e.tfExportImport(w)
+}
+
+// tfExportImport (C19): the REAL x/tokenfactory ExportGenesis -> JSON -> every key of the tokenfactory store deleted -> the REAL
+// InitGenesis, in a cache context written back when nothing panicked; the history continues on the imported store.  Then the state
+// of every denom of the history (`tf.get`: authority metadata, bank metadata, before-send hook, supply) and the params are read back.
+// Oracle (the engine's own admin / hook book): admins, creator index, params survive; a before-send hook does not (loss).
+func (e *authEnv) tfExportImport(w *tfWorld) {
+	h := e.h
+	k := h.App.TokenFactoryKeeper
+	cdc := h.App.AppCodec()
+	var canons []string
+	seen := map[string]bool{}
+	for _, d := range w.denoms {
+		if c := d.canon(); !seen[c] {
+			seen[c] = true
+			canons = append(canons, c)
+		}
+	}
+	creators := func() string {
+		var names []string
+		for n := range e.real {
+			names = append(names, n)
+		}
+		sort.Strings(names)
+		var sb strings.Builder
+		for _, n := range names {
+			resp, err := k.DenomsFromCreator(h.Ctx, &tftypes.QueryDenomsFromCreatorRequest{Creator: e.real[n]})
+			if err == nil && len(resp.Denoms) > 0 {
+				ds := append([]string{}, resp.Denoms...)
+				sort.Strings(ds)
+				sb.WriteString(n + ":" + strings.Join(ds, ",") + ";")
+			}
+		}
+		return sb.String()
+	}
+	// behavioural probe of a hook (discarded branch): the test contract refuses bank sends of exactly 100 units
+	probe := func(c string) string {
+		cur := w.ref[c]
+		if cur == "-" || !e.isValid(cur) {
+			return "n/a"
+		}
+		bctx, _ := h.Ctx.CacheContext()
+		rd := e.realDenom(c)
+		res := "n/a"
+		catch(func() {
+			if _, err := e.tfSrv.Mint(bctx, &tftypes.MsgMint{Sender: e.addr(cur), Amount: sdk.NewInt64Coin(rd, 250), MintToAddress: e.addr("u0")}); err != nil {
+				return
+			}
+			if err := h.App.BankKeeper.SendCoins(bctx, e.acc("u0"), e.acc("u1"), sdk.NewCoins(sdk.NewInt64Coin(rd, 100))); err != nil {
+				res = "rejected"
+			} else {
+				res = "accepted"
+			}
+		})
+		return res
+	}
+	preParams := k.GetParams(h.Ctx)
+	preCreators := creators()
+	preProbe := map[string]string{}
+	for _, c := range canons {
+		if hk := w.hook[c]; hk != "" && hk != "-" {
+			preProbe[c] = probe(c)
+		}
+	}
+	cctx, write := h.Ctx.CacheContext()
+	nDenoms := 0
+	ok := catch(func() {
+		gen := k.ExportGenesis(cctx)
+		nDenoms = len(gen.FactoryDenoms)
+		bz := cdc.MustMarshalJSON(gen)
+		store := cctx.KVStore(h.App.GetKey(tftypes.StoreKey))
+		var keys [][]byte
+		it := store.Iterator(nil, nil)
+		for ; it.Valid(); it.Next() {
+			keys = append(keys, append([]byte{}, it.Key()...))
+		}
+		it.Close()
+		for _, key := range keys {
+			store.Delete(key)
+		}
+		var gs tftypes.GenesisState
+		cdc.MustUnmarshalJSON(bz, &gs)
+		k.InitGenesis(cctx, gs)
+	})
+	if !ok {
+		e.o.Emit("auth tf.exportimport", "panic", true)
+		e.o.Fail("export-import:tokenfactory:panics", fmt.Sprintf("%d denoms", len(canons)))
+		return
+	}
+	write()
+	e.base = nil
+	e.o.Emit("auth tf.exportimport", "ok", true)
+	e.o.Count("exportimport")
+	e.o.Count(fmt.Sprintf("exportimport.denoms.%d", min(nDenoms, 8)))
+	for _, c := range append(append([]string{}, canons...), "factory/u0/ghost") {
+		e.o.Emit("auth tf.get "+c, e.tfObs("ok", c, nil, nil), true)
+	}
+	p := k.GetParams(h.Ctx)
+	e.o.Emit("auth tf.params", fmt.Sprintf("ok fee=uosmo:%s", p.DenomCreationFee.AmountOf("uosmo")), true)
+	// ---- oracle
+	if !p.DenomCreationFee.Equal(preParams.DenomCreationFee) || p.DenomCreationGasConsume != preParams.DenomCreationGasConsume {
+		e.o.Fail("export-import:tokenfactory:params", fmt.Sprintf("%v -> %v", preParams, p))
+	}
+	if post := creators(); post != preCreators {
+		e.o.Fail("export-import:tokenfactory:creator-index", fmt.Sprintf("%s -> %s", preCreators, post))
+	}
+	for _, c := range canons {
+		rd := e.realDenom(c)
+		am, _ := k.GetAuthorityMetadata(h.Ctx, rd)
+		if e.nm(am.Admin) != w.ref[c] {
+			cls := "admin"
+			if w.ref[c] == "-" {
+				cls = "renounced-admin"
+			}
+			e.o.Fail("export-import:tokenfactory:"+cls+"-changed", fmt.Sprintf("%s admin %s -> %s", c, w.ref[c], e.nm(am.Admin)))
+		}
+		hk := w.hook[c]
+		if hk == "" || hk == "-" {
+			continue
+		}
+		e.o.Count("exportimport.denom-with-hook")
+		if got := e.nm(k.GetBeforeSendHook(h.Ctx, rd)); got != hk {
+			twLoss(e.o, "export-import:tokenfactory:before-send-hook-not-exported",
+				fmt.Sprintf("%s: MsgSetBeforeSendHook(%s) accepted before the export; after ExportGenesis -> InitGenesis BeforeSendHookAddress = %q; bank send of exactly 100 (refused by the hook contract): %s before, %s after the import",
+					c, hk, got, preProbe[c], probe(c)))
+			w.hook[c] = "-"
+		}
 	}
 }
 
@@ -1866,6 +2036,9 @@ func runAuth(t *testing.T, seed int64, n int, dir string) {
 	wasmCode, _ := os.ReadFile(repoDir + "/x/tokenfactory/keeper/testdata/no100.wasm")
 	e := &authEnv{t: t, h: newH(t), o: NewOut(dir), r: rand.New(rand.NewSource(seed))}
 	h := e.h
+	// VERIF_AUTH_FOCUS=tokenfactory (C19 borrows this engine for the tokenfactory export/import only): histories end after the
+	// tokenfactory phase and two in three (instead of one in three) have a contract that can serve as a before-send hook
+	tfOnly := os.Getenv("VERIF_AUTH_FOCUS") == "tokenfactory"
 	for e.ops < n {
 		e.setup()
 		// --- universe: CL pools, a balancer pool whose shares are a superfluid asset, a validator
@@ -1974,7 +2147,7 @@ func runAuth(t *testing.T, seed int64, n int, dir string) {
 		// one history in three has a cosmwasm contract that can serve as a before-send hook
 		contracts := "-"
 		e.cw = ""
-		if wasmCode != nil && e.r.Intn(3) == 0 {
+		if wasmCode != nil && (e.r.Intn(3) == 0) != tfOnly {
 			ck := wasmkeeper.NewGovPermissionKeeper(h.App.WasmKeeper)
 			codeID, _, err := ck.Create(h.Ctx, h.TestAccs[0], wasmCode, nil)
 			if err != nil {
@@ -2063,6 +2236,9 @@ func runAuth(t *testing.T, seed int64, n int, dir string) {
 			e.o.Count("histories.unpool-allowed")
 		}
 		e.tfPhase()
+		if tfOnly {
+			continue
+		}
 		e.gmPhase(gms, gpools[0].GetId())
 		e.clRegister(cw, 1, "t0", clPool.GetId(), false)
 		for _, lp := range lps {
